@@ -220,6 +220,10 @@ func verifierChild(args []string) {
 		b := trueDigest(alg, content)
 		b[len(b)/2] ^= 0x10
 		recorded = hex.EncodeToString(b)
+	case rc == "longer": // the true digest followed by more hex digits
+		recorded = good + "deadbeef"
+	case rc == "zero_padded": // a prefix of the true digest, padded with zeros to full length
+		recorded = good[:len(good)-4] + "0000"
 	case rc == "trunc_odd":
 		recorded = good[:len(good)-1]
 	case rc == "trunc_even":
